@@ -247,11 +247,18 @@ def shard(shard, nshards, rng, tier, extra):
             # narrow (min of the integer lengths) although the aligned operands need more than 64 bits
             nwx = rng.randint(35, 62); fxm = (False, nwx, rng.randint(0, 6)); nwy = rng.randint(2, 30); fym = (False, nwy, rng.randint(max(0, nwy - 6), nwy))
             if rng.random() < 0.5: fxm, fym = fym, fxm
+        directed = False
+        if rng.random() < 0.12:
+            # directed: the dividend's integer length and the divisor's fraction length cancel (n_int(x) + n_frac(y) = 0, -1), the aligned divisor
+            # needs 64 bits and more, the quotient is tiny: the most negative dividend over minus one LSB is exactly +1 (and its neighbours)
+            nwx = rng.randint(34, 60); nix = rng.choice([0, 0, -1, 1]); fxm = (True, nwx, nwx - 1 - nix); nfy = max(0, -nix + rng.choice([0, 0, 1])); nwy = rng.randint(max(2, 65 - nwx + nfy), 40); fym = (True, nwy, nfy); directed = True
         if not (1 <= wmod_of(fxm, fym) <= 53 or 1 <= wfl_of(fxm, fym) <= 53): continue
         # (x//y and x/y are checked only when their own result words are within the domain)
         cx = A.interesting_codes(rng, fxm[0], fxm[1], 1)[0]; cy = A.interesting_codes(rng, fym[0], fym[1], 1)[0]
+        if directed:
+            lox, hix = S.fmt_bounds(fxm[0], fxm[1]); cx = rng.choice([lox, lox, lox + 1, hix, -1, 1]); cy = rng.choice([-1, -1, 1, -2, 2])
         if cy == 0: continue
-        if rng.random() < 0.4 and fxm[2] >= fym[2]:
+        if rng.random() < 0.4 and fxm[2] >= fym[2] and not directed:
             # a dividend next to an exact multiple of the divisor (on the common fraction length): the floor changes with the last bit
             Y = cy << (fxm[2] - fym[2]); lo, hi = S.fmt_bounds(fxm[0], fxm[1])
             q = rng.randint(lo // abs(Y) if Y else 0, hi // abs(Y)) if abs(Y) <= hi else 0
